@@ -291,6 +291,10 @@ class AquaCropModel:
             self.__start_model_execution = time.time()
             for i in range(num_steps):
 
+                # a run that has already terminated has no day left to simulate
+                if self._clock_struct.model_is_finished:
+                    return True
+
                 if (i == range(num_steps)[-1]) and (process_outputs is True):
                     self.__steps_are_finished = True
 
